@@ -781,12 +781,12 @@ func wfSeqs() []*mc.Seq {
 	depth := func(quick, thorough int) map[string]int { return map[string]int{"quick": quick, "thorough": thorough} }
 	cfgs := []*wfConfig{
 		{name: "wf-pagerank-1", analyzer: "pagerank", lists: allLists[0:1], timeouts: validTimeouts, depth: depth(6, 9)},
-		{name: "wf-pagerank-1-2", analyzer: "pagerank", lists: allLists[1:2], timeouts: validTimeouts, depth: depth(7, 10)},
-		{name: "wf-pagerank-1-2-4", analyzer: "pagerank", lists: allLists[2:3], timeouts: validTimeouts, depth: depth(6, 9)},
-		{name: "wf-pagerank-1-2-4-8", analyzer: "pagerank", lists: allLists[3:4], timeouts: validTimeouts, depth: depth(6, 9)},
+		{name: "wf-pagerank-1-2", analyzer: "pagerank", lists: allLists[1:2], timeouts: validTimeouts, depth: depth(7, 9)},
+		{name: "wf-pagerank-1-2-4", analyzer: "pagerank", lists: allLists[2:3], timeouts: validTimeouts, depth: depth(6, 8)},
+		{name: "wf-pagerank-1-2-4-8", analyzer: "pagerank", lists: allLists[3:4], timeouts: validTimeouts, depth: depth(6, 8)},
 		// Size classes appear and disappear while actions execute; starts with [1 2].
-		{name: "wf-pagerank-changing-classes", analyzer: "pagerank", lists: changingLists, timeouts: t60, depth: depth(6, 9), firstList: 1},
-		{name: "wf-smallest", analyzer: "smallest", lists: allLists, timeouts: validTimeouts, depth: depth(6, 9), firstList: 1},
+		{name: "wf-pagerank-changing-classes", analyzer: "pagerank", lists: changingLists, timeouts: t60, depth: depth(6, 8), firstList: 1},
+		{name: "wf-smallest", analyzer: "smallest", lists: allLists, timeouts: validTimeouts, depth: depth(6, 8), firstList: 1},
 		{name: "wf-fallback", analyzer: "fallback", lists: allLists, timeouts: validTimeouts, depth: depth(6, 9), firstList: 1},
 	}
 	var seqs []*mc.Seq
